@@ -74,6 +74,10 @@ type child struct {
 	lines  chan []byte
 	stderr *ring
 	dead   bool
+	// history: the plans this process has executed so far, in order. The
+	// library has process-global state (registries, caches, pools), so a
+	// violation may depend on what the same process did before.
+	history []*Plan
 }
 
 type childOpts struct {
@@ -304,6 +308,9 @@ func (c *child) exec(plan *Plan) *Result {
 		return &Result{Idx: plan.Idx, Verdict: "infra", Detail: "marshal plan: " + err.Error()}
 	}
 	msg = append(msg, '\n')
+	if len(c.history) < 400 {
+		c.history = append(c.history, plan)
+	}
 	cpu0, _ := procCPU(c.cmd.Process.Pid)
 	marks0 := c.stderr.progress()
 	begun := false
@@ -497,10 +504,11 @@ func matchKnown(fs []Finding, prop, key string) *Finding {
 // Controller
 
 type violationRec struct {
-	plan   *Plan
-	res    *Result
-	replay string
-	known  *Finding
+	plan    *Plan
+	res     *Result
+	replay  string
+	known   *Finding
+	history []*Plan // plans the same worker process executed before this one
 }
 
 type replayFile struct {
@@ -513,6 +521,9 @@ type replayFile struct {
 	Steps     int    `json:"minimise_steps"`
 	Plan      *Plan  `json:"plan"`
 	Original  *Plan  `json:"original_plan,omitempty"`
+	// History: plans to execute, in order, in the same process before Plan (the
+	// violation depends on process-global state they leave behind).
+	History []*Plan `json:"history,omitempty"`
 }
 
 func ctlMain(propID, tier string) int {
@@ -619,7 +630,11 @@ func ctlMain(propID, tier string) int {
 					agg.violCount++
 					k := res.key()
 					if _, seen := agg.viol[k]; !seen && len(agg.viol) < 12 {
-						agg.viol[k] = &violationRec{plan: plan, res: res}
+						var hist []*Plan
+						if n := len(c.history); n > 1 {
+							hist = append(hist, c.history[:n-1]...)
+						}
+						agg.viol[k] = &violationRec{plan: plan, res: res, history: hist}
 					}
 				case "infra":
 					if len(agg.infra) < 10 {
@@ -658,6 +673,14 @@ func ctlMain(propID, tier string) int {
 			// the narrowed plan does not reproduce on its own: try the plan as executed
 			minPlan, minRes, steps = minimise(p, v.plan, v.res)
 		}
+		var hist []*Plan
+		if steps < 0 && len(v.history) > 0 {
+			// Not reproducible on its own: it may depend on what the same
+			// process executed before (process-global library state).
+			if h, r := reproduceWithHistory(p, v.history, v.plan, v.res); h != nil {
+				hist, minPlan, minRes, steps = h, v.plan, r, 0
+			}
+		}
 		if steps < 0 {
 			// A violation that a fresh child cannot reproduce from the plan is
 			// not evidence about the code (plans are pure functions of their
@@ -671,7 +694,7 @@ func ctlMain(propID, tier string) int {
 			fmt.Printf("KNOWN-FINDING: property=%s key=%q %s\n", propID, minRes.key(), f.What)
 			continue
 		}
-		rf := replayFile{Property: propID, Class: minRes.Class, Site: minRes.Site, Detail: minRes.Detail, Seed: seed, Minimised: steps > 0, Steps: max(steps, 0), Plan: minPlan, Original: v.plan}
+		rf := replayFile{Property: propID, Class: minRes.Class, Site: minRes.Site, Detail: minRes.Detail, Seed: seed, Minimised: steps > 0, Steps: max(steps, 0), Plan: minPlan, Original: v.plan, History: hist}
 		dir := filepath.Join(verifRoot(), "replays")
 		if d := os.Getenv("VERIF_REPLAY_DIR"); d != "" {
 			dir = d
@@ -770,6 +793,55 @@ func minimise(p Property, plan *Plan, res *Result) (*Plan, *Result, int) {
 	return cur, curRes, steps
 }
 
+// reproduceWithHistory re-executes, in a fresh child, a suffix of the plans the
+// failing worker had executed before the failing plan, then the plan itself.
+// It returns the shortest suffix (by doubling, then single drops) that still
+// reproduces the violation class, or nil.
+func reproduceWithHistory(p Property, history []*Plan, plan *Plan, res *Result) ([]*Plan, *Result) {
+	try := func(h []*Plan) *Result {
+		c, err := startChild(p, childOpts{})
+		if err != nil {
+			return nil
+		}
+		defer func() { c.close() }()
+		for _, q := range h {
+			if r := c.exec(q); c.dead || r.Verdict == "infra" {
+				return nil
+			}
+		}
+		r := c.exec(plan)
+		if r.Verdict == "violation" && r.Class == res.Class {
+			return r
+		}
+		return nil
+	}
+	var best []*Plan
+	var bestRes *Result
+	for n := 1; ; n *= 2 {
+		if n > len(history) {
+			n = len(history)
+		}
+		h := history[len(history)-n:]
+		if r := try(h); r != nil {
+			best, bestRes = h, r
+			break
+		}
+		if n == len(history) {
+			return nil, nil
+		}
+	}
+	// drop single predecessors while it still reproduces
+	for i := 0; i < len(best) && len(best) > 1 && len(best) <= 64; {
+		cand := append(append([]*Plan{}, best[:i]...), best[i+1:]...)
+		if r := try(cand); r != nil {
+			best, bestRes = cand, r
+		} else {
+			i++
+		}
+	}
+	return best, bestRes
+}
+
 // ---------------------------------------------------------------------------
 // Replay
 
@@ -797,6 +869,15 @@ func replayMain(path string) int {
 		c, err := startChild(p, childOpts{})
 		if err != nil {
 			fmt.Fprintln(os.Stderr, err)
+			return 2
+		}
+		for hi, h := range rf.History {
+			if r := c.exec(h); c.dead {
+				fmt.Printf("replay: history plan %d killed the worker: %s\n", hi, r.Detail)
+				break
+			}
+		}
+		if c.dead {
 			return 2
 		}
 		res := c.exec(rf.Plan)
